@@ -288,6 +288,7 @@ func c17ParseModel(ans string) (c17Model, error) {
 	var m c17Model
 	if ans == "panic" {
 		m.panicked = true
+		m.wf = true // not reported for a panic
 		return m, nil
 	}
 	fs := strings.Fields(ans)
@@ -461,7 +462,11 @@ func c17Judge(ctx *Ctx, res *Result, cases []c17Case, layer string) {
 			return
 		}
 		c17Compare(res, c, m, layer)
-		// soundness of the implementation's verdicts
+		// soundness of the implementation's verdicts; a run that ends in the
+		// (modelled) panic of includePath.popUntil is not a completed check
+		if c.impl.panicked != "" && m.panicked {
+			continue
+		}
 		for _, v := range c.impl.verdicts {
 			known := false
 			for _, mv := range m.verdicts {
@@ -563,6 +568,10 @@ func c17Compare(res *Result, c c17Case, m c17Model, layer string) {
 			FoundInput: false, Size: 10 * len(c.prog),
 			Replay: c17ReplayLayer(c, layer, map[string]any{"broken": "correspondence RedundantScope.Check = Model.Redundant.check (panic)"}),
 		})
+		return
+	}
+	if m.panicked {
+		res.Count(layer+"_both_panic", 1)
 		return
 	}
 	if len(c.impl.other) > 0 {
@@ -865,6 +874,16 @@ func c17UnitShard(ctx *Ctx, res *Result, spec c17ShardSpec) {
 		src := "random"
 		if p.hasInclude() {
 			src = "random+include"
+		}
+		if rng.Chance(3) {
+			// a file that does not start at line 1: includePath.popUntil runs off the stack
+			f := rng.Intn(2)
+			for k := range p {
+				if p[k].File == f {
+					p[k].Lineno++
+				}
+			}
+			src = "random-shifted-linenos"
 		}
 		add(p, src, true)
 	}
@@ -1383,7 +1402,7 @@ func runC17(ctx *Ctx) *Result {
 	floors := map[string]int{
 		"shim_verdicts_R": 1000, "shim_verdicts_N": 1000, "shim_verdicts_O": 1000,
 		"shim_verdicts_earlier_line_flagged": 100, "shim_verdicts_inside_guard": 1000,
-		"programs_random": 1000, "programs_random+include": 1000,
+		"programs_random": 1000, "programs_random+include": 1000, "shim_both_panic": 100,
 		"runs_binary-package": 20, "runs_binary-standalone-mk": 5, "runs_with_verdicts": 20,
 		"binary_verdicts_R": 5, "binary_verdicts_O": 5, "binary_verdicts_N": 5,
 	}
